@@ -201,8 +201,9 @@ pub fn run(tier: Tier) -> i32 {
     }
     // group corners: cells that look like the wildcard or like a literal but are groups
     {
-        let cells = ["*", "(*)", "(a)", "(*|a)", "((a))", "()", "(a|)", "a"];
-        let vals = ["a", "*", "(a)", "", "b"];
+        let cells = ["*", "(*)", "(a)", "(*|a)", "((a))", "()", "(a|)", "a", "(a|b)", "(|)"];
+        // '|' separates alternatives in a pattern but is an ordinary character in a feature value
+        let vals = ["a", "*", "(a)", "", "b", "a|b", "|"];
         let mut pats: Vec<Vec<&str>> = vec![];
         for c in cells {
             pats.push(vec![c]);
@@ -275,7 +276,7 @@ pub fn run(tier: Tier) -> i32 {
     // dictionary level: the trainer applies each section's rewriter and falls back to the
     // ORIGINAL features when that section has no matching rule
     crate::props::train::dict_level_c17(tier, &mut st);
-    rep.rule = "state = (ordered rule list of <= 3/4 rules whose patterns have 1-2 (thorough also 1-3) columns over {*, a, b, (a|b)} and whose output names the rule and references $1,$2,$3; feature list of length 0-3 over {a,b,c}); the real rewriter (rule-list hook and rewrite.def text with all section assignments of two rules) must return what the first rule in list order that matches position-wise as a prefix returns, or nothing; every output list of <= 3/4 items over {$1..$6, k} on lists of 0-4 columns, every list of <= 2 rules with cells from {*, (*), (a), (*|a), ((a)), (), (a|), a} on 1-2 feature values from {a, *, (a), '', b}, and $1..$25 on long lists; plus, for really trained models whose rewrite.def has sections with and without catch-all rules, the connection classes and bigram.left/right tuples must be those of the reference rewrite (else: features unchanged) followed by the reference expansion; distinct = distinct outputs".into();
+    rep.rule = "state = (ordered rule list of <= 3/4 rules whose patterns have 1-2 (thorough also 1-3) columns over {*, a, b, (a|b)} and whose output names the rule and references $1,$2,$3; feature list of length 0-3 over {a,b,c}); the real rewriter (rule-list hook and rewrite.def text with all section assignments of two rules) must return what the first rule in list order that matches position-wise as a prefix returns, or nothing; every output list of <= 3/4 items over {$1..$6, k} on lists of 0-4 columns, every list of <= 2 rules with cells from {*, (*), (a), (*|a), ((a)), (), (a|), a, (a|b), (|)} on 1-2 feature values from {a, *, (a), '', b, a|b, |}, and $1..$25 on long lists; plus, for really trained models whose rewrite.def has sections with and without catch-all rules, the connection classes and bigram.left/right tuples must be those of the reference rewrite (else: features unchanged) followed by the reference expansion; distinct = distinct outputs".into();
     rep.bounds = json!({"max_rules": tier.pick(3, 4), "pattern_columns": tier.pick("1-2", "1-2 (4 rules), 1-3 (3 rules)"), "feature_len": "0-3"});
     rep.assumptions = vec!["a pattern longer than the feature list does not match (the statement is silent; the code agrees)".into()];
     rep.finish(
